@@ -119,6 +119,12 @@ func (v *Version) isBareDevRelease() bool {
 	return v.prerelease == "" && v.postrelease == -1 && v.dev != -1
 }
 
+// IsPrerelease reports whether the version is a pre-release or a dev release
+// (PEP 440: such versions are excluded from matching by default)
+func (v *Version) IsPrerelease() bool {
+	return v.prerelease != "" || v.dev != -1
+}
+
 // String returns the string representation of the version
 func (v *Version) String() string {
 	return v.original
